@@ -198,6 +198,12 @@ class Form(Node):
 
         if e < 1:
             # Ellipse
+            # The start value below is meant for M in [-pi, pi]; from several revolutions
+            # away the Newton iteration can wander for > 100 steps or enter a cycle and
+            # never return. Solve for the reduced anomaly and add the revolutions back.
+            revs = 2 * np.pi * np.floor((M + np.pi) / (2 * np.pi))
+            M = M - revs
+
             if -np.pi < M < 0 or M > np.pi:
                 E = M - e
             else:
@@ -211,7 +217,7 @@ class Form(Node):
                 E = E1
                 E1 = next_E(E, e, M)
 
-            return E1
+            return E1 + revs
         else:
             # Hyperbolic
             if e < 1.6:
